@@ -182,6 +182,7 @@ theorem C16_on_turn (s : St) (op : Op) (hT : ∀ k, op ≠ .T k) : offTurn (step
   | T k => exact absurd rfl (hT k)
   | q k m t => simp only [step]; split <;> simp [enqueue, drain, offTurn_pump]
   | m k => simp only [step]; split <;> simp [enqueue, drain, offTurn_pump]
+  | a k => simp only [step]; split <;> simp [enqueue, drain, offTurn_pump]
   | H => simp only [step]; split <;> simp [enqueue, drain, offTurn_pump]
   | L => simp only [step]; split <;> simp [drain, offTurn_pump]
   | r k => simp only [step]; split <;> (try split) <;> simp [enqueue, drain, offTurn_pump]
